@@ -203,6 +203,12 @@ def step (st : State) (w : List String) : State × String :=
       | .optOut, _ => some "fail:optout"
       | _, _ => some "bad-op"
     (st, r.getD "bad-op")
+  | "authfilter" :: "check" :: _ =>
+    let r : Option String := do
+      let ts ← (listOf (field w "R")).mapM fun t => t.toNat?
+      let idx := (List.range ts.length).filter fun i => match ts[i]? with | some t => denialRecordType t | none => false
+      some (showNats idx)
+    (st, r.getD "bad-op")
   | "ttl" :: "calc" :: _ =>
     let parseItem : String → Option TTLItem := fun t =>
       let k := t.take 1
